@@ -47,8 +47,16 @@ ALL = {
    text="Exploration. between_vectors (Quaternion, Basis3, Basis2) and from_arc checked against the validity predicate of the statement (unit, maps a to b, rotation angle = angle(a,b), axis perpendicular, half turn for opposite vectors, fallback axis honoured, smaller angle) on f64 pairs in the classes generic / near-parallel / near-antiparallel (1e-12..1e-1 rad) / exactly equal / exactly opposite, and with == in Q on pairs b = 2(a.m)m - a for which every internal normalisation is rational.",
    note=EX+"Unit inputs for between_vectors; the 1e-7 / 1e-4 allowances of the statement are applied as stated, with a conditioning term 32 eps/theta* between the allowance and 1e-9.",
    technique="property-based testing: validity-predicate oracle with degenerate-class generators (f64) + exact rational geometry (Q)", design="6/C15"),
+ "C11": dict(
+   text="Exploration. Exact: magnitude2/distance2/project_on identities over Q and Fp, and magnitude/normalize/normalize_to/distance on vectors of *rational length* (rational unit vector times a rational) so that every internal sqrt is exact, for Vector1-4, Quaternion and Point1-3. f64: the same clauses with 4-8 eps tolerances and the angle clauses (|u||v|cos(angle)=u.v within 1e-12, range, symmetry; 2-D sign pinned by rotating u) on generic, nearly (anti)parallel and exactly (anti)parallel pairs.",
+   note=EX+"f64 components log-uniform in 1e-3..1e3 (no over/underflow of squares); non-zero lengths by construction.",
+   technique="property-based testing: exact rational-length oracle + f64 validity predicates on conditioned pair classes", design="6/C11"),
+ "C14": dict(
+   text="Exploration. lerp = a + (b-a)t decided exactly over Q and Fp for every VectorSpace implementation (Vector1-4, Quaternion, Matrix2-4). nlerp/slerp checked on f64 unit-quaternion pairs in the classes generic / nearly parallel / nearly opposite / on the 0.9995 hand-over (delta 1e-12..1e-2, both signs of the dot product) / orthogonal / equal / exactly opposite with t in {0,1} and U[0,1], against the statement's validity predicate: unit, in the plane of a and b', on the shorter arc, exact endpoints, slerp arc = t*Omega within 1e-9 (1e-5 above the hand-over).",
+   note=EX+"The arc is measured as 2 atan2(|a-b'|,|a+b'|); the frame used for the in-plane test is known to eps/Omega, which is added to the tolerance; either target accepted when |a.b| <= 1e-12.",
+   technique="property-based testing: exact-field oracle (lerp) + validity predicate with threshold-targeted generators (nlerp/slerp)", design="6/C14"),
 }
-BUILT = ["C01","C02","C03","C04","C05","C06","C07","C12","C13","C15"]
+BUILT = ["C01","C02","C03","C04","C05","C06","C07","C11","C12","C13","C14","C15"]
 CLAIMED = {k: v for k, v in ALL.items() if k in BUILT}
 PENDING = {}
 
